@@ -144,6 +144,8 @@ def cases(c):
         if kind == 'int':
             d['idt'] = gen.pick(rng, ['int64', 'int32', 'int16'])
             d['amp'] = gen.pick(rng, [9, 1000, 30000])
+        elif i % 6 == 1:
+            d['amp10'] = int(gen.pick(rng, [-12, -9, -6, 6, 9, 10]))     # "any data": amplitude is only a unit (raw ADC counts, volts)
         out.append(d)
     return out
 
